@@ -73,6 +73,7 @@ def _run(fb, rep, tier):
     rep.rule('R20.2', 'pointer parameters are subscripted only by loop variables bounded by an int parameter / stored *nnonzeros; re-sizable local vectors are not read beyond dim()', floor=30)
     rep.rule('R20.3', 'arguments reach the C++ parameter of the same kind (lower/lhs, upper/rhs, objective); Rational(num, denom) is built from one pair in order', floor=40)
     rep.rule('R20.3a', 'every Rational(num, denom) is built from the numerator and the denominator of one pair, at the same index', floor=12)
+    rep.rule('R20.6', 'a vector local handed to a C++ vector getter has the dimension of the LP (numCols() / numRows()) unless that getter assigns the whole vector', floor=4)
     rep.rule('R20.4', 'a buffer length computed from a string is computed after the definition of that string that reaches the copy', floor=2)
 
     for f in fs:
@@ -80,7 +81,8 @@ def _run(fb, rep, tier):
         want = RENAMES.get(base, [base])
         w = f.where()
         mem = [c for c in f.calls() if c.k == 'CXXMemberCallExpr' and c.n.startswith(C + '::')]
-        got = sorted(set(c.short for c in mem))
+        # dimension queries used to size a temporary are not an effect of the wrapper
+        got = sorted(set(c.short for c in mem if not (c.short in ('numCols', 'numRows') and c.short not in want)))
         rep.check(got == sorted(set(want)), 'R20.1', f.short + '|members', w, 'calls %s' % got, 'calls %s, expected %s' % (got, sorted(set(want))))
         # handle discipline
         handle = f.params[0][0] if f.params else None
@@ -206,6 +208,21 @@ def bounds(fb, rep, f):
                 continue
             if 'VectorBase' not in sx.t or 'SVectorBase' in sx.t or 'DSVectorBase' in sx.t:
                 continue
+            # R20.6: the dimension the local was created with
+            decl = [d for d in f.nodes if d.k == 'VarDecl' and d.u == sx.u]
+            if decl and decl[0].c:
+                ctor = strip(decl[0].kids[0])
+                cargs = [render(strip(a_)) for a_ in (ctor.kids if ctor.k in ('CXXConstructExpr', 'CXXTemporaryObjectExpr') else [])]
+                whole = callee is not None and any(z.k == 'CXXOperatorCallExpr' and (z.short or '') == 'operator=' and z.args() and strip(z.args()[0]).k == 'DeclRefExpr'
+                                                   and strip(z.args()[0]).n == callee.params[k][0] for z in callee.nodes)
+                dimtest = callee is not None and any(z.k == 'BinaryOperator' and z.o in ('>=', '==', '<', '!=') and ('%s.dim()' % callee.params[k][0]) in render(z) for z in callee.nodes)
+                whole = whole or dimtest
+                lpdim = bool(cargs) and re.search(r'->num(Cols|Rows)(Real|Rational)?\(\)$', cargs[0]) is not None
+                key6 = '%s|%s(%s) -> %s' % (f.short, sx.n, ','.join(cargs)[:30], c.short)
+                rep.check(lpdim or whole or not cargs, 'R20.6', key6, '%s:%d' % (f.file, decl[0].l),
+                          'LP dimension' if lpdim else 'the getter assigns the whole vector / tests its dimension itself' if whole else 'default-constructed',
+                          '%s is created with %s entries and handed to %s, which fills numCols() / numRows() entries without re-sizing it (on a scaled LP it goes through '
+                          'SPxScaler::get..Unscaled): a smaller dimension is overrun, a different one trips the dimension assertion' % (sx.n, cargs[0] if cargs else '?', c.short))
             # reads v[i] after the call
             for n in f.nodes:
                 if n.k == 'CXXOperatorCallExpr' and n.o == '[]' and n.i > c.i:
